@@ -296,6 +296,43 @@ func splitSigned(der []byte) (tbs, sig []byte, err error) {
 	return tbs, der[off+e3.HdrLen+1 : off+e3.HdrLen+e3.Len], nil
 }
 
+// rawSignedParts splits SEQUENCE{tbs, alg, BIT STRING} with my own reader and returns the TBS element and
+// the complete BIT STRING content *including* the unused-bits octet (the signature value as encoded).
+func rawSignedParts(der []byte) (tbs, bits []byte, err error) {
+	top, err := rder.ReadStrict(der, 0)
+	if err != nil || top.Tag != 0x30 {
+		return nil, nil, fmt.Errorf("outer")
+	}
+	e1, err := rder.ReadStrict(der, top.HdrLen)
+	if err != nil {
+		return nil, nil, err
+	}
+	tbs = der[top.HdrLen : top.HdrLen+e1.HdrLen+e1.Len]
+	off := top.HdrLen + e1.HdrLen + e1.Len
+	e2, err := rder.ReadStrict(der, off)
+	if err != nil {
+		return nil, nil, err
+	}
+	off += e2.HdrLen + e2.Len
+	e3, err := rder.ReadStrict(der, off)
+	if err != nil || e3.Tag != 0x03 {
+		return nil, nil, fmt.Errorf("bitstring")
+	}
+	return tbs, der[off+e3.HdrLen : off+e3.HdrLen+e3.Len], nil
+}
+
+// sameSignedParts: the mutant leaves TBS and the encoded signature value untouched, judged on the raw
+// DER (not on the fields the parser under test filled in). If my reader cannot split the mutant
+// (which the library's parser accepted), the parser's own fields are the only witness left.
+func sameSignedParts(orig, mut []byte) bool {
+	t1, b1, e1 := rawSignedParts(orig)
+	t2, b2, e2 := rawSignedParts(mut)
+	if e1 != nil || e2 != nil {
+		return true
+	}
+	return bytes.Equal(t1, t2) && bytes.Equal(b1, b2)
+}
+
 func hashFor(alg gx.SignatureAlgorithm, s signer) (crypto.Hash, func() hash.Hash) {
 	switch alg {
 	case gx.SHA1WithRSA, gx.ECDSAWithSHA1:
@@ -535,8 +572,18 @@ func effectiveCN(n pkix.Name) string {
 func mutate(t *rapid.T, der []byte, n int, origTBS, origSig []byte, kindTag string, verify func(mut []byte) (tbs, sig []byte, parseErr, sigErr error)) {
 	for i := 0; i < n; i++ {
 		pos := rapid.IntRange(0, len(der)-1).Draw(t, "mpos")
+		if i == 0 {
+			// always aim one mutant at the signature BIT STRING's unused-bits octet / header
+			if tb, bits, err := rawSignedParts(der); err == nil && len(bits) > 0 {
+				_ = tb
+				pos = len(der) - len(bits) - rapid.IntRange(0, 2).Draw(t, "hdrback")
+				if pos < 0 {
+					pos = 0
+				}
+			}
+		}
 		b := der[pos]
-		nb := rapid.SampledFrom([]byte{0x00, 0x01, 0x7f, 0x80, 0xff, b ^ 1, b ^ 0x80}).Draw(t, "mval")
+		nb := rapid.SampledFrom([]byte{0x00, 0x01, 0x02, 0x07, 0x7f, 0x80, 0xff, b ^ 1, b ^ 0x80}).Draw(t, "mval")
 		if nb == b {
 			nb = b ^ 0x10
 		}
@@ -552,7 +599,7 @@ func mutate(t *rapid.T, der []byte, n int, origTBS, origSig []byte, kindTag stri
 			R.Case(false, 0, "mutant_parse_error")
 		case serr != nil:
 			R.Case(true, hx.HashKey(kindTag, mut), "mutant_tbs_or_sig")
-		case bytes.Equal(tbs, origTBS) && bytes.Equal(sig, origSig):
+		case bytes.Equal(tbs, origTBS) && bytes.Equal(sig, origSig) && sameSignedParts(der, mut):
 			R.Case(false, 0, "mutant_outside_signed_region")
 		default:
 			t.Fatalf("%s: after changing byte %d (%#x -> %#x) the object still parses AND verifies although TBS or signature differ\n orig %x\n mut  %x", kindTag, pos, b, nb, der, mut)
